@@ -78,7 +78,7 @@ OPS = all_ops()
 PATHS_L = ["/", "/a", "/c", "/h", "/d"]
 OPS_L = all_ops(PATHS_L)     # alphabet of the 'linked' initial state (X: /a = D1, /c soft -> /a, /h hard -> /a; /d free)
 # alphabet of the 'mcool' initial state: X is laid out and tagged like a multi-resolution file (root attributes format=HDF5::MCOOL,
-# /resolutions/2 = D1, /resolutions/4 = D2); /a and /0 are free ('/0' is the group name of the legacy multi-resolution layout)
+# /resolutions/2 = D1, /resolutions/4 = D2) and Y holds D2 at its root; /a and /0 are free ('/0' is the group name of the legacy multi-resolution layout)
 PATHS_M = ["/", "/resolutions/2", "/resolutions/4", "/a", "/0"]
 OPS_M = all_ops(PATHS_M)
 # the seeded initial state (root collection + foreign objects) over paths below /resolutions: assembling a multi-resolution layout
@@ -346,6 +346,10 @@ def initial(init, d):
             m.op_create("X", p, d, "a" if k else "w")
         with h5py.File(w.path("X"), "r+") as f:
             f.attrs.update({"format": "HDF5::MCOOL", "format-version": 2})
+        # the other file holds a root collection, so that cross-file operations INTO the tagged file are one step away
+        bins, pix = data_content("D2")
+        cooler.create_cooler(w.path("Y"), build.bins_df(bins), fx.frame(pix), columns=["count", "score"], dtypes={"score": float}, ordered=True, **META["D2"])
+        m.op_create("Y", "/", "D2", "w")
     return w, m
 
 
